@@ -58,7 +58,7 @@ def main(nstates=12, seed=0, lines=None, verbose=True):
         c = ir2smt.Ctx(strict=False, flat=True)
         S = SPEC.Spec(c, z3.BitVecVal(i.l, 32))
         try:
-            SPEC.sem(name, S, args, {'opsize': 16 if i.opmode == A.u16 else 32, 'l': i.l})
+            SPEC.sem(name, S, args, {'opsize': 16 if i.opmode == A.u16 else 32, 'l': i.l, 'adsize': 16 if i.admode == A.u16 else 32})
         except SPEC.Unsupported as ex:
             report.append('%-36s unsupported by the reference: %s' % (line, ex))
             continue
